@@ -50,24 +50,43 @@ Proof. unfold gstep. now intros ->. Qed.
 Definition lift (gs' : gates) (r : res (secs * formatter * list emit)) : res gres :=
   do x <- r; Ok (fst (fst x), gs', snd (fst x), snd x).
 
-Lemma grun_erase ansi w : forall ops st gs f, leakfree ansi gs ops = true ->
-  grun ansi w st gs f ops = lift (gates_after gs ops) (srun ansi w st f (erase gs ops)).
+(* the ideal run, whatever is refused *)
+Lemma grun_ideal_erase ansi w : forall ops st gs f,
+  grun_ideal ansi w st gs f ops = lift (gates_after gs ops) (srun ansi w st f (erase gs ops)).
 Proof.
-  induction ops as [|o r IH]; intros st gs f Hl; [reflexivity|].
-  cbn [leakfree] in Hl. apply andb_true_iff in Hl. destruct Hl as [Hk Hl]. apply negb_true_iff in Hk.
-  cbn [grun erase gates_after fold_left]. fold (gates_after (gates_step gs o) r).
-  rewrite (gstep_is_ideal _ _ _ _ _ _ Hk). unfold gstep_ideal.
+  induction ops as [|o r IH]; intros st gs f; [reflexivity|].
+  cbn [grun_ideal erase gates_after fold_left]. fold (gates_after (gates_step gs o) r).
+  unfold gstep_ideal.
   destruct (sop_of o) as [so|] eqn:Es.
   - destruct (allowed gs o) eqn:Ea.
     + cbn [app srun]. unfold sec_step.
       destruct (if ansi then sstep w st f so else sstep_plain st f so) as [[[st1 f1] e1]|k]; [|reflexivity].
-      cbn [bind fst snd]. rewrite (IH _ _ _ Hl). unfold lift.
+      cbn [bind fst snd]. rewrite IH. unfold lift.
       destruct (srun ansi w st1 f1 (erase (gates_step gs o) r)) as [[[st2 f2] e2]|k]; reflexivity.
-    + cbn [bind fst snd app]. rewrite (gates_step_refused _ _ Ea) in *. rewrite (IH _ _ _ Hl). unfold lift.
+    + cbn [bind fst snd app]. rewrite (gates_step_refused _ _ Ea) in *. rewrite IH. unfold lift.
       destruct (srun ansi w st f (erase gs r)) as [[[st2 f2] e2]|k]; reflexivity.
-  - cbn [bind fst snd app]. rewrite (IH _ _ _ Hl). unfold lift.
+  - cbn [bind fst snd app]. rewrite IH. unfold lift.
     destruct (srun ansi w st f (erase (gates_step gs o) r)) as [[[st2 f2] e2]|k]; reflexivity.
 Qed.
+(* the run of the code is the ideal run when no decorated clear / overwrite is refused *)
+Lemma grun_is_ideal ansi w : forall ops st gs f, leakfree ansi gs ops = true ->
+  grun ansi w st gs f ops = grun_ideal ansi w st gs f ops.
+Proof.
+  induction ops as [|o r IH]; intros st gs f Hl; [reflexivity|].
+  cbn [leakfree] in Hl. apply andb_true_iff in Hl. destruct Hl as [Hk Hl]. apply negb_true_iff in Hk.
+  cbn [grun grun_ideal]. rewrite (gstep_is_ideal _ _ _ _ _ _ Hk).
+  destruct (gstep_ideal ansi w st gs f o) as [[[[st1 gs1] f1] e1]|k] eqn:E; [|reflexivity]. cbn [bind fst snd].
+  assert (gs1 = gates_step gs o) as ->.
+  { unfold gstep_ideal in E. destruct (sop_of o).
+    - destruct (allowed gs o) eqn:Ea.
+      + destruct (sec_step ansi w st f s) as [[[? ?] ?]|]; cbn in E; [|discriminate]. now inversion E.
+      + inversion E; subst. now rewrite (gates_step_refused _ _ Ea).
+    - now inversion E. }
+  now rewrite (IH _ _ _ Hl).
+Qed.
+Lemma grun_erase ansi w ops st gs f : leakfree ansi gs ops = true ->
+  grun ansi w st gs f ops = lift (gates_after gs ops) (srun ansi w st f (erase gs ops)).
+Proof. intros Hl. rewrite (grun_is_ideal _ _ _ _ _ _ Hl). apply grun_ideal_erase. Qed.
 
 (* ---------- 3. the sequence without its refused calls ---------- *)
 Lemma erase_kept : forall ops gs, erase gs (kept gs ops) = erase gs ops.
